@@ -628,3 +628,61 @@ def run_irfft_length_conservation(res: Results, idx: Index) -> None:
                       f"({len(bad)} of {n_eval} lengths wrong: {[b[0] for b in bad][:8]}); the DFT pads the missing bins with zeros", f.qualname)
     else:
         res.ok("R-C01k", f"{FFT}:{blk.lineno}", key, f"one-sided + mirrored = transform length for {n_eval} lengths (even and odd)", f.qualname)
+
+
+# ---------------------------------------------------------------------------------------------- R-C01r
+def run_operand_role_separation(res: Results, idx: Index) -> None:
+    """`dot_general` describes each operand by its OWN axis lists (lhs_batch / rhs_batch, lhs_contract / rhs_contract).  Paired
+    axes need not have equal indices.  A permutation applied to one operand may therefore be computed from that operand's
+    lists only: `rhs_perm = list(lhs_batch) + …` transposes the right operand by the left operand's batch order, which is the
+    same only while both orders agree (then the call is exported as `lhs[a,b] @ rhs[a,b]` for `rhs[b,a]`).  For every call in
+    the dot_general lowering that hands an operand value and a permutation to a helper, the lhs_* / rhs_* names the
+    permutation is computed from must all belong to that operand."""
+    res.rule("R-C01r", "a permutation applied to one dot_general operand is computed from that operand's axis lists only", floor=2)
+    rel = "jax2onnx/plugins/jax/lax/dot_general.py"
+    m = idx.module(rel)
+    n = 0
+    for fi in m.funcs.values():
+        du = None
+        for c in walk_no_nested(fi.node):
+            if not (isinstance(c, ast.Call) and len(c.args) >= 2 and isinstance(c.args[0], ast.Name) and c.args[0].id.split("_")[0] in ("lhs", "rhs")):
+                continue
+            role = c.args[0].id.split("_")[0]
+            perm_args = [a for a in c.args[1:] if isinstance(a, ast.Name) and "perm" in a.id]
+            if not perm_args:
+                continue
+            du = du or defuse(fi.node)
+            for pa in perm_args:
+                n += 1
+                key = f"{rel}::{fi.qualname}::{role}-operand-permutation::{pa.id}"
+                site = f"{rel}:{c.lineno}"
+                # role-named sources of the permutation: follow un-prefixed helper names (`batch_axes`) through their textually
+                # nearest binding, stop at lhs_* / rhs_* names (the function-wide closure would mix both operands through
+                # shared loop variables)
+                clo: Set[str] = set()
+                todo = [(pa.id, c.lineno)]
+                seen_n: Set[str] = set()
+                while todo:
+                    nm_, line_ = todo.pop()
+                    if nm_ in seen_n:
+                        continue
+                    seen_n.add(nm_)
+                    ds_ = [d for d in du.defs.get(nm_, []) if d.value is not None and getattr(d.stmt, "lineno", 0) <= line_]
+                    if not ds_:
+                        continue
+                    last_ = max(getattr(d.stmt, "lineno", 0) for d in ds_)
+                    for d in ds_:
+                        if getattr(d.stmt, "lineno", 0) != last_:
+                            continue
+                        for x in names_in(d.value):
+                            if x.split("_")[0] in ("lhs", "rhs"):
+                                clo.add(x)
+                            else:
+                                todo.append((x, last_))
+                foreign = sorted(x for x in clo if x.split("_")[0] != role)
+                if foreign:
+                    res.violation("R-C01r", site, key, f"`{src(c, 60)}` permutes the {role} operand with `{pa.id}`, which is computed from {foreign}: the other operand's axis order is applied to this operand — "
+                                  "right only while both orders coincide (batch dims paired as ((0,1),(1,0)) are exported as a batched MatMul of the untransposed operand)", fi.qualname)
+                else:
+                    res.ok("R-C01r", site, key, f"`{pa.id}` is computed from {role}_* names only", fi.qualname)
+    res.analysed["operand_permutation_calls"] = n
